@@ -43,6 +43,9 @@ const ORDER_TARGETS: &[(u32, &str, &str)] = &[
     (46, "crates/ripd/src/continuities.rs", "ContinuityStore::compaction_auto_spawn_job_v1"),
     (47, "crates/ripd/src/continuities.rs", "ContinuityStore::compaction_auto_v1"),
     (48, "crates/ripd/src/continuities.rs", "ContinuityStore::compaction_auto_schedule_v1"),
+    (50, "crates/ripd/src/continuities.rs", "ContinuityStore::replay_events"),
+    (51, "crates/ripd/src/continuities.rs", "ContinuityStore::replay_events_from_log_locked"),
+    (52, "crates/ripd/src/continuities.rs", "ContinuityStore::load_next_seq_for"),
 ];
 
 const CONST_TARGETS: &[(&str, &str)] = &[
@@ -155,6 +158,11 @@ impl<'ast> Visit<'ast> for Collect {
             "insert" if recv == "next_seq" => self.out.push(Eff::Bump),
             "subscribe" => self.out.push(Eff::Subscribe),
             "events_snapshot" | "replay_events" => self.out.push(Eff::Snapshot),
+            // a reader's fall-back from the sidecar to the log (C06): cache read, log read, rewrite
+            "try_replay" => self.out.push(Eff::Mark("tryCache")),
+            "replay_stream" => self.out.push(Eff::Mark("logRead")),
+            "rebuild_best_effort" => self.out.push(Eff::Mark("rebuild")),
+            "replay_events_from_log_locked" => self.out.push(Eff::Mark("fromLogLocked")),
             "load_next_seq_for" => self.out.push(Eff::SeqLoad),
             "create_continuity" => self.out.push(Eff::CreateThread),
             "acquire" if recv == "workspace_lock" => self.out.push(Eff::Lock(6)),
@@ -990,6 +998,7 @@ fn main() {
 
     // ---- lock table: which tools are exempt from the workspace lock, which tools are registered
     let mut exempt: Vec<String> = Vec::new();
+    let mut exempt_is_complement = false;
     let mut registered: Vec<String> = Vec::new();
     match std::fs::read_to_string(repo.join("crates/ripd/src/workspace_lock.rs")) {
         Err(e) => errors.push(format!("workspace_lock.rs: {e}")),
@@ -1002,8 +1011,13 @@ fn main() {
                         if func.sig.ident == "requires_workspace_lock" {
                             found = true;
                             let body = func.block.to_token_stream().to_string();
-                            if !body.replace(' ', "").starts_with("{!matches!(tool_name,") {
-                                errors.push("requires_workspace_lock: shape not recognised (expected `!matches!(tool_name, \"a\" | …)`)".into());
+                            // deny-list `!matches!(tool_name, "a" | …)` (the listed tools are exempt) or
+                            // allow-list `matches!(tool_name, "a" | …)` (every other registered tool is exempt)
+                            let squashed = body.replace(' ', "");
+                            if squashed.starts_with("{matches!(tool_name,") {
+                                exempt_is_complement = true;
+                            } else if !squashed.starts_with("{!matches!(tool_name,") {
+                                errors.push("requires_workspace_lock: shape not recognised (expected `!matches!(tool_name, \"a\" | …)` or `matches!(tool_name, \"a\" | …)`)".into());
                             }
                             let mut rest = body.as_str();
                             while let Some(p) = rest.find('"') {
@@ -1038,6 +1052,10 @@ fn main() {
                 if registered.is_empty() {
                     errors.push("register_builtin_tools: no registry.register(\"…\") call found".into());
                 }
+                if exempt_is_complement {
+                    let listed = std::mem::take(&mut exempt);
+                    exempt = registered.iter().filter(|n| !listed.contains(n)).cloned().collect();
+                }
             }
         },
     }
@@ -1064,7 +1082,7 @@ fn main() {
     // ---- emit Lean
     let mut lean = String::new();
     lean.push_str("/- GENERATED by ripx from /repo's current source. Do not edit. -/\nnamespace Rip.Gen\n\n");
-    lean.push_str("inductive Eff\n  | publish | record | lock (n : Nat) | unlock (n : Nat) | logAppend | cacheAppend | bump\n  | subscribe | snapshot | seqLoad | createThread | runTool | emitBatch | sideEffects | runProcess | fsWrite | fsFlush\n  | brNeedsLock | brNoLock | brBarred | brAllowed | brEnd | validateGate | httpSend\n  | appendMessage | runSpawned | spawnSession | selDecided | compiled | cursorUpdated | runEnded | writeSnapshot | agentLoop\n  | appendFrame | dryRunGate\n  deriving Repr, DecidableEq\n\n");
+    lean.push_str("inductive Eff\n  | publish | record | lock (n : Nat) | unlock (n : Nat) | logAppend | cacheAppend | bump\n  | subscribe | snapshot | seqLoad | createThread | runTool | emitBatch | sideEffects | runProcess | fsWrite | fsFlush\n  | brNeedsLock | brNoLock | brBarred | brAllowed | brEnd | validateGate | httpSend\n  | appendMessage | runSpawned | spawnSession | selDecided | compiled | cursorUpdated | runEnded | writeSnapshot | agentLoop\n  | appendFrame | dryRunGate | tryCache | logRead | rebuild | fromLogLocked\n  deriving Repr, DecidableEq\n\n");
     lean.push_str("/-- lock ids: 1 = recorded-frames buffer, 2 = task seq counter, 3 = continuity next_seq map, 4 = index, 5 = log file, 9 = other -/\n");
     lean.push_str("def effectOrders : List (Nat × List Eff) := [\n");
     for (k, (id, path, effs)) in orders.iter().enumerate() {
@@ -1111,6 +1129,55 @@ fn main() {
         READ_ONLY_ENTRIES.iter().filter_map(|n| idx(n)).map(|i| i.to_string()).collect::<Vec<_>>().join(", ")
     ));
     lean.push_str(&format!("/-- cache-layer files that mention the truth log (must be none) -/\ndef cacheFilesMentioningLog : Nat := {}\n\n", cache_mentions_log.len()));
+    // who rewrites the sidecar from a log snapshot (C06): every function of ripd/src (outside test
+    // modules) whose body calls `rebuild_best_effort`, by FNV-1a 64 of its name
+    let mut rebuilders: Vec<String> = Vec::new();
+    for f in ["crates/ripd/src/continuities.rs", "crates/ripd/src/continuity_stream_cache.rs", "crates/ripd/src/server.rs", "crates/ripd/src/session.rs", "crates/ripd/src/runner.rs"] {
+        if load(f, &mut parsed).is_err() {
+            continue;
+        }
+        struct Who {
+            cur: Vec<String>,
+            out: Vec<String>,
+        }
+        impl<'ast> Visit<'ast> for Who {
+            fn visit_item_mod(&mut self, m: &'ast syn::ItemMod) {
+                if m.ident == "tests" || m.attrs.iter().any(|a| a.to_token_stream().to_string().replace(' ', "").contains("cfg(test)")) {
+                    return;
+                }
+                syn::visit::visit_item_mod(self, m);
+            }
+            fn visit_item_fn(&mut self, f: &'ast syn::ItemFn) {
+                self.cur.push(f.sig.ident.to_string());
+                syn::visit::visit_item_fn(self, f);
+                self.cur.pop();
+            }
+            fn visit_impl_item_fn(&mut self, f: &'ast syn::ImplItemFn) {
+                self.cur.push(f.sig.ident.to_string());
+                syn::visit::visit_impl_item_fn(self, f);
+                self.cur.pop();
+            }
+            fn visit_expr_method_call(&mut self, m: &'ast syn::ExprMethodCall) {
+                if m.method == "rebuild_best_effort" {
+                    if let Some(n) = self.cur.last() {
+                        if !self.out.contains(n) {
+                            self.out.push(n.clone());
+                        }
+                    }
+                }
+                syn::visit::visit_expr_method_call(self, m);
+            }
+        }
+        let mut w = Who { cur: Vec::new(), out: Vec::new() };
+        w.visit_file(&parsed[f]);
+        rebuilders.extend(w.out);
+    }
+    rebuilders.sort();
+    lean.push_str(&format!(
+        "/-- functions that rewrite the sidecar from a log snapshot (call `rebuild_best_effort`): {} -/\ndef sidecarRebuilders : List Nat := [{}]\n\n",
+        rebuilders.join(", "),
+        rebuilders.iter().map(|n| fnv64(n.as_bytes()).to_string()).collect::<Vec<_>>().join(", ")
+    ));
     lean.push_str("end Rip.Gen.CallGraph\n");
     write_if_changed(&out.join("CallGraph.lean"), &lean);
 
